@@ -7,7 +7,7 @@
    alias a refused function is emitted as. *)
 From Coq Require Import List ZArith QArith Bool Lia.
 From DV Require Import Base.PyList Base.C07_Num Model.C07_Spea2 Model.C07_RefPoints Model.C07_GenRt Gen.C07_gen
-                       Proofs.C07_SelectGen Proofs.C07_Spea2.
+                       Proofs.C07_SelectGen Proofs.C07_Spea2 Proofs.C07_RefPoints.
 Import ListNotations.
 Local Open Scope nat_scope.
 
@@ -182,6 +182,100 @@ Qed.
 
 End Equiv.
 
+(* ---- uniform_reference_points: the nested generator and the function itself ---- *)
+Section Refs.
+Context {T : Type} (Op : numops T).
+
+Lemma gen_num_prefix rem : forall left pre, gen_num rem left pre = map (app pre) (gen_num rem left []).
+Proof.
+  induction rem as [|rem IH]; intros left pre; cbn [gen_num].
+  - reflexivity.
+  - rewrite !flat_map_concat_map, concat_map, map_map. f_equal. apply map_ext. intro i.
+    rewrite (IH _ (pre ++ [i])), (IH _ ([] ++ [i])), map_map. apply map_ext. intro r. now rewrite app_assoc.
+Qed.
+
+Lemma zrange_0_nat n : zrange 0 (Z.of_nat n) = map Z.of_nat (seq 0 n).
+Proof. unfold zrange. rewrite Z.sub_0_r, Nat2Z.id. apply map_ext. intro i. lia. Qed.
+
+Lemma snd_let {A B} (p : A * B) : (let '(_, b) := p in b) = snd p.
+Proof. now destruct p. Qed.
+
+Lemma firstn_set_nth {A} (l : list A) d v : firstn d (set_nth l d v) = firstn d l.
+Proof. revert d. induction l as [|x r IH]; intro d; destruct d; cbn; [reflexivity..|]. now rewrite IH. Qed.
+
+Lemma firstn_S_set_nth {A} (l : list A) d v : d < length l -> firstn (S d) (set_nth l d v) = firstn d l ++ [v].
+Proof.
+  revert d. induction l as [|x r IH]; intros d H; [cbn in H; lia|]. destruct d; [reflexivity|].
+  cbn [set_nth firstn app]. cbn in H. f_equal. apply IH. lia.
+Qed.
+
+(* for i in ...: ref[depth] = ..; points.extend(<something that only depends on an invariant P of ref>):
+   generic in the loop body F — it only has to append R i and keep P *)
+Lemma refs_loop_char (F : Z -> list T * list (list T) -> list T * list (list T)) (R : nat -> list (list T))
+      (P : list T -> Prop) xs :
+  (forall i ref pts, In i xs -> P ref -> exists ref', F (Z.of_nat i) (ref, pts) = (ref', pts ++ R i) /\ P ref') ->
+  forall ref pts, P ref -> snd (for_ (map Z.of_nat xs) F (ref, pts)) = pts ++ flat_map R xs.
+Proof.
+  induction xs as [|x xs IH]; intros H ref pts Hp; [cbn; now rewrite app_nil_r|].
+  cbn [map flat_map]. unfold for_ in *. cbn [fold_left].
+  destruct (H x ref pts (or_introl eq_refl) Hp) as [ref' [E Hp']]. rewrite E.
+  rewrite IH; [now rewrite app_assoc| |exact Hp']. intros i r p Hi. apply H. now right.
+Qed.
+
+(* gen_refs_recursive(ref, nobj, left, total, depth) with depth < nobj = len(ref) and enough fuel: the first `depth`
+   entries of ref followed by numerator / total, over the model's numerators gen_num *)
+Theorem gen_refs_eq : forall fuel n d l total (ref : list T),
+  d < n -> length ref = n -> n - d <= fuel ->
+  gen_refs_recursive Op fuel ref (Z.of_nat n) (Z.of_nat l) total (Z.of_nat d)
+  = gen_refs_model Op fuel ref (Z.of_nat n) (Z.of_nat l) total (Z.of_nat d).
+Proof.
+  first [ solve [intros; unfold gen_refs_recursive; reflexivity] | idtac "gen_refs_recursive: regenerated";
+  induction fuel as [|fuel IH]; intros n d l total ref Hd Hl Hf; [lia|];
+  cbn [gen_refs_recursive]; cbv zeta; unfold gen_refs_model; rewrite !Nat2Z.id;
+  destruct (Z.eqb_spec (Z.of_nat d) (Z.of_nat n - 1)) as [E|E];
+  [ (* depth == nobj - 1 *)
+    replace (n - 1 - d) with 0 by lia; cbn [gen_num map app]; f_equal; unfold setz; rewrite Nat2Z.id;
+    rewrite <- (firstn_all (set_nth ref d _)), set_nth_length, Hl; replace n with (S d) by lia;
+    apply firstn_S_set_nth; lia
+  | (* the loop over i in range(left + 1) *)
+    rewrite ?pair_eta, snd_let;
+    replace (Z.of_nat l + 1)%Z with (Z.of_nat (S l)) by lia; rewrite zrange_0_nat;
+    replace (n - 1 - d) with (S (n - 1 - S d)) by lia; cbn [gen_num];
+    pose (dv := fun i : nat => n_div Op (n_ofZ Op (Z.of_nat i)) (n_ofZ Op total));
+    pose (R := fun i : nat => map (fun nums => firstn d ref ++ dv i :: map dv nums) (gen_num (n - 1 - S d) (l - i) []));
+    rewrite (refs_loop_char _ R (fun r => length r = n /\ firstn d r = firstn d ref));
+    [ cbn [app]; rewrite !flat_map_concat_map, concat_map, map_map;
+      f_equal; apply map_ext; intro i;
+      rewrite (gen_num_prefix _ _ [i]), map_map; reflexivity
+    | intros i r pts Hi [Lr Fr]; apply in_seq in Hi; cbv beta iota zeta;
+      eexists; split; [|split];
+      [ f_equal; f_equal;
+        replace (Z.of_nat l - Z.of_nat i)%Z with (Z.of_nat (l - i)) by lia;
+        replace (Z.of_nat d + 1)%Z with (Z.of_nat (S d)) by lia;
+        rewrite IH; [|lia|unfold setz; now rewrite set_nth_length|lia];
+        unfold gen_refs_model, setz; rewrite !Nat2Z.id; rewrite firstn_S_set_nth by lia; rewrite Fr;
+        unfold R; apply map_ext; intro nums; rewrite <- app_assoc; reflexivity
+      | unfold setz; now rewrite set_nth_length
+      | unfold setz; rewrite Nat2Z.id, firstn_set_nth; exact Fr ]
+    | split; [exact Hl|reflexivity] ] ] ].
+Qed.
+
+Theorem gen_uniform_reference_points_eq (nobj p : nat) (sc : option T) : 1 <= nobj ->
+  gen_uniform_reference_points Op (Z.of_nat nobj) (Z.of_nat p) sc = ref_points Op nobj p sc.
+Proof.
+  intro Hn.
+  first [ solve [unfold gen_uniform_reference_points; rewrite !Nat2Z.id; reflexivity]
+        | idtac "gen_uniform_reference_points: regenerated" ].
+  all: unfold gen_uniform_reference_points; cbv zeta.
+  all: change 0%Z with (Z.of_nat 0); rewrite !Nat2Z.id.
+  all: rewrite gen_refs_eq by (rewrite ?repeat_length; lia).
+  all: unfold gen_refs_model; rewrite !Nat2Z.id; cbn [firstn app]; rewrite Nat.sub_0_r.
+  all: unfold ref_points, ref_points_raw, ref_num, scale_points.
+  all: destruct sc as [s|]; rewrite ?map_map; apply map_ext; intro row; rewrite ?map_map; reflexivity.
+Qed.
+
+End Refs.
+
 (* ---- the C07 theorems about _partition / _randomizedSelect, on the regenerated definitions ---- *)
 Section Thms.
 Context {T : Type} (Op : numops T).
@@ -255,6 +349,37 @@ Proof.
   exact (spea2_spec qx_ops qx_ltb_asym (map (map QF) vq) wvals k draws (dist_ok_qx vq) Hk).
 Qed.
 
+(* the reference-point theorems on the regenerated uniform_reference_points (exact rationals) *)
+Definition gen_ref_points_q (nobj p : nat) (sc : option Q) : list (list Q) :=
+  gen_uniform_reference_points q_ops (Z.of_nat nobj) (Z.of_nat p) sc.
+
+Lemma gen_ref_points_q_eq nobj p sc : 1 <= nobj -> gen_ref_points_q nobj p sc = ref_points_q nobj p sc.
+Proof. intro H. unfold gen_ref_points_q, ref_points_q. now apply gen_uniform_reference_points_eq. Qed.
+
+Theorem gen_ref_points_count : forall nobj p sc, 1 <= nobj ->
+  length (gen_ref_points_q nobj p sc) = binom (nobj + p - 1) p.
+Proof. intros nobj p sc H. rewrite gen_ref_points_q_eq by exact H. now apply ref_points_count. Qed.
+
+Theorem gen_ref_points_rows : forall nobj p sc row, 1 <= nobj -> 1 <= p ->
+  match sc with Some s => (0 <= s)%Q /\ (s <= 1)%Q | None => True end ->
+  In row (gen_ref_points_q nobj p sc) ->
+  length row = nobj /\ Forall (fun x => (0 <= x)%Q) row /\ (qsum row == 1)%Q.
+Proof.
+  intros nobj p sc row H1 H2 Hs. rewrite gen_ref_points_q_eq by exact H1. destruct sc as [s|].
+  - destruct Hs. now apply ref_points_scaled_rows.
+  - now apply ref_points_rows.
+Qed.
+
+Theorem gen_ref_points_distinct : forall nobj p sc i j, 1 <= nobj -> 1 <= p ->
+  match sc with Some s => ~ (s == 0)%Q | None => True end ->
+  let pts := gen_ref_points_q nobj p sc in
+  i < length pts -> j < length pts -> i <> j -> ~ Forall2 Qeq (nth i pts []) (nth j pts []).
+Proof.
+  intros nobj p sc i j H1 H2 Hs. cbv zeta. rewrite gen_ref_points_q_eq by exact H1. destruct sc as [s|].
+  - now apply ref_points_scaled_distinct.
+  - now apply ref_points_distinct.
+Qed.
+
 Theorem source_is_model :
   (forall {T} (Op : numops T) arr b e, gen_partition Op arr b e = partition Op arr b e) /\
   (forall {T} (Op : numops T) arr b e ds,
@@ -262,11 +387,14 @@ Theorem source_is_model :
   (forall {T} (Op : numops T) fuel arr b e i ds,
      gen_randomizedSelect Op fuel arr b e i ds = rand_select Op fuel arr b e i ds) /\
   (forall {T} (Op : numops T) inds k ds,
-     gen_selSPEA2 Op inds k ds = spea2 Op (map fst inds) (map snd inds) k ds).
+     gen_selSPEA2 Op inds k ds = spea2 Op (map fst inds) (map snd inds) k ds) /\
+  (forall {T} (Op : numops T) nobj p sc, 1 <= nobj ->
+     gen_uniform_reference_points Op (Z.of_nat nobj) (Z.of_nat p) sc = ref_points Op nobj p sc).
 Proof.
-  split; [|split; [|split]]; intros.
+  split; [|split; [|split; [|split]]]; intros.
   - apply gen_partition_eq.
   - apply gen_randomizedPartition_eq.
   - apply gen_randomizedSelect_eq.
   - apply gen_selSPEA2_eq.
+  - now apply gen_uniform_reference_points_eq.
 Qed.
